@@ -226,6 +226,9 @@ func verifSetCfg(c string) verifCfg {
 			case 1:
 				SetShouldEncrypt(true)
 				SetEncryptionKey(verifGoodKey)
+			case 3: // real encryption, ciphertexts left as they are (oracles)
+				SetShouldEncrypt(true)
+				SetEncryptionKey(verifGoodKey)
 			case 2: // unusable key material injected at the API level
 				SetShouldEncrypt(true)
 				SetEncryptionKey([]byte("0123456789"))
